@@ -307,10 +307,33 @@ def check_assembled(res, ss, models, tag, rng, max_cols=None):
         d2 = (evals[2] - evals[3]) / h
         D = (4 * d2 - d1) / 3
         smooth = np.abs(d1 - d2) <= 1e-4 * (1 + np.abs(D))
+        # a kink exactly at the operating point (a state sitting on a breakpoint of a piecewise-linear characteristic) is
+        # symmetric for central differences: one-sided slopes differ by an amount that does not shrink with h
+        # (for a smooth function the difference is h f'' and halves with h)
+        s1 = (evals[0] - 2 * f0 + evals[1]) / h
+        s2 = (evals[2] - 2 * f0 + evals[3]) / (h / 2)
+        with np.errstate(all="ignore"):
+            kink = (np.abs(s1) > 1e-5 * (1 + np.abs(D))) & (np.abs(s2) > 0.75 * np.abs(s1))
+        if np.any(kink & ~excl_rows):
+            res.count("entries_excluded_kink_at_operating_point", int(np.sum(kink & ~excl_rows)))
+        smooth = smooth & ~kink
         use = (~excl_rows) & smooth & np.isfinite(D)
         res.count("assembled_entries_compared", int(use.sum()))
         err = np.abs(J[:, c] - D)
-        lim = 1e-6 * (1 + np.abs(D)) + 2e-8       # 1e-8: documented diag_eps constants
+        # round-off of the residual itself (equations with penalty constants like 1e8 (1 - z) cancel terms of that size):
+        # measured, not assumed - the change of the residual under a move of a few ulp is noise, not slope
+        # (measured against the finite-difference slope D itself, never against ANDES' Jacobian: a wrong Jacobian must not
+        #  widen its own allowance; steps of h/64 and h/100 resolve a quantum q of the residual as deviations up to q)
+        noise = np.zeros(n + m)
+        for frac in (1.0 / 64, -1.0 / 100):
+            xy = xy0.copy()
+            xy[c] += frac * h
+            with np.errstate(all="ignore"):
+                dev = np.abs(residual(ss, models, xy, n) - f0 - frac * h * D)
+            noise = np.maximum(noise, np.where(np.isfinite(dev), dev, 0.0))
+        lim = 1e-6 * (1 + np.abs(D)) + 2e-8 + 8.0 * noise / h      # 2e-8: documented diag_eps constants
+        if np.any(noise / h > 1e-6):
+            res.count("entries_with_measured_roundoff_allowance", int(np.sum(noise / h > 1e-6)))
         if np.any(use & (err > lim)):
             r = int(np.where(use & (err > lim))[0][np.argmax((err / lim)[use & (err > lim)])])
             rn = (dae.x_name + dae.y_name)[r] if r < len(dae.x_name) + len(dae.y_name) else str(r)
